@@ -4,6 +4,7 @@ package props
 
 import (
 	"fmt"
+	sdb "github.com/alicebob/sqlittle/db"
 	"math/rand"
 	"os"
 	"sync"
@@ -233,9 +234,99 @@ func C17(run *hx.Run) {
 		}(wi)
 	}
 	wg.Wait()
+	// nested scans: a second scan on the SAME table / index handle, started from inside the callback of a
+	// running scan and stopped early, must deliver its own prefix, and the outer scan must go on delivering
+	// its own rows to its own callback afterwards
+	seenData := map[*byte]bool{}
+	for _, j := range jobs {
+		if len(j.data) == 0 || seenData[&j.data[0]] {
+			continue
+		}
+		seenData[&j.data[0]] = true
+		c17Nested(run, j.data, j.name, j.roots)
+	}
 	for _, k := range []string{"Table.Scan", "Index.Scan", "Index.ScanMin", "Index.ScanRange", "Index.ScanEq", "SelectDone"} {
 		if run.Seen("op_kind", k) == 0 {
 			run.Inconclusive("no " + k + " operation was exercised")
+		}
+	}
+}
+
+func c17Nested(run *hx.Run, data []byte, dbname string, roots map[string]int) {
+	p := hx.NewMemPager(data)
+	h, err := openMem(p)
+	if err != nil {
+		return
+	}
+	if err := h.low.RLock(); err != nil {
+		return
+	}
+	defer h.low.RUnlock()
+	type scanner struct {
+		kind, name string
+		scan       func(cb func(hx.Row) bool) error
+	}
+	var scs []scanner
+	for key := range roots {
+		name := key[2:]
+		if key[0] == 't' {
+			if sch, err := h.low.Schema(name); err == nil && sch.WithoutRowid {
+				if t, err := h.low.NonRowidTable(name); err == nil {
+					scs = append(scs, scanner{"Index.Scan", name, func(cb func(hx.Row) bool) error {
+						return t.Scan(func(rec sdb.Record) bool { return cb(recordToRow(rec)) })
+					}})
+				}
+			} else if t, err := h.low.Table(name); err == nil {
+				scs = append(scs, scanner{"Table.Scan", name, func(cb func(hx.Row) bool) error {
+					return t.Scan(func(id int64, rec sdb.Record) bool {
+						return cb(append(hx.Row{id}, recordToRow(rec)...))
+					})
+				}})
+			}
+		} else if ix, err := h.low.Index(name); err == nil {
+			scs = append(scs, scanner{"Index.Scan", name, func(cb func(hx.Row) bool) error {
+				return ix.Scan(func(rec sdb.Record) bool { return cb(recordToRow(rec)) })
+			}})
+		}
+	}
+	for _, sc := range scs {
+		var ref []hx.Row
+		if err := sc.scan(func(r hx.Row) bool { ref = append(ref, r); return false }); err != nil || len(ref) < 4 {
+			continue
+		}
+		for _, at := range []int{1, len(ref) / 2, len(ref) - 1} { // outer row (1-based) at which the inner scan runs
+			for _, k := range []int{1, 2, len(ref) / 3, len(ref)} { // inner stop position
+				if k < 1 {
+					continue
+				}
+				var outer, inner []hx.Row
+				innerCalls := 0
+				var innerErr error
+				outerErr := sc.scan(func(r hx.Row) bool {
+					outer = append(outer, r)
+					if len(outer) == at {
+						innerErr = sc.scan(func(r2 hx.Row) bool {
+							innerCalls++
+							inner = append(inner, r2)
+							return len(inner) >= k
+						})
+					}
+					return false
+				})
+				run.Eval(1)
+				run.DistinctN(1)
+				run.See("nested_scan", sc.kind)
+				key := "C17/" + sc.kind + "/nested"
+				detail := hx.M{"db": dbname, "object": sc.name, "outer_row": at, "inner_stop": k, "rows": len(ref)}
+				switch {
+				case innerErr != nil || outerErr != nil:
+					run.Violation(key+"/error", fmt.Sprintf("%s(%s) on %s: inner scan stopped at %d from inside outer row %d: inner err=%v outer err=%v", sc.kind, sc.name, dbname, k, at, innerErr, outerErr), detail)
+				case innerCalls != k || !sameRows(inner, ref[:k]):
+					run.Violation(key+"/inner-not-a-prefix", fmt.Sprintf("%s(%s) on %s: inner scan asked to stop at %d got %d callbacks / rows differ from the first %d", sc.kind, sc.name, dbname, k, innerCalls, k), detail)
+				case !sameRows(outer, ref):
+					run.Violation(key+"/outer-disturbed", fmt.Sprintf("%s(%s) on %s: after an inner scan (stopped at %d) ran inside its callback at row %d, the outer scan delivered %d rows instead of its %d (or other rows)", sc.kind, sc.name, dbname, k, at, len(outer), len(ref)), detail)
+				}
+			}
 		}
 	}
 }
